@@ -703,6 +703,7 @@ class Interp:
 
     def truth(self, v):
         """python truth of a possibly symbolic value, forking if needed (under the current guard)"""
+        v = self.cond(v)
         if isinstance(v, (SI, SB)):
             c = self.fold(self.bo(v))
             if z3.is_true(c):
@@ -1054,6 +1055,8 @@ class Interp:
             if hasattr(a0, "e2_int"):
                 return a0.e2_int(self)
         if f is bool:
+            if hasattr(a0, "e2_bool"):
+                return a0.e2_bool(self)
             if is_sym(a0):
                 return SB(self.bo(a0))
             if isinstance(a0, Rec):
@@ -1224,7 +1227,7 @@ class Interp:
                 name = e.attr
             raise _TargetRaise(name)
         if isinstance(s, ast.Assert):
-            c = self.ev(s.test, fr)
+            c = self.cond(self.ev(s.test, fr))
             if is_sym(c):
                 ce = self.fold(self.bo(c))
                 if self.raise_under(g_and(self.g, z3.Not(ce)), "AssertionError"):
@@ -1336,7 +1339,7 @@ class Interp:
         return False
 
     def do_if(self, s, fr):
-        c = self.ev(s.test, fr)
+        c = self.cond(self.ev(s.test, fr))
         if not is_sym(c):
             self.block(s.body if (True if isinstance(c, Rec) else c) else s.orelse, fr)
             return
@@ -1446,7 +1449,7 @@ class Interp:
                     if escaped and self.g is not True and not self.loop_alive(s, it, self.g, learned, fr.qual):
                         self.g = False
                         break
-                    c = self.ev(s.test, fr)
+                    c = self.cond(self.ev(s.test, fr))
                     if not is_sym(c):
                         if not (True if isinstance(c, Rec) else c):
                             exits.append(self.g)
@@ -1562,6 +1565,8 @@ class Interp:
             return r
         if hasattr(a, "e2_binop"):
             return a.e2_binop(self, op, b)
+        if hasattr(b, "e2_rbinop"):
+            return b.e2_rbinop(self, op, a)
         try:
             return self.binop(op, a, b)
         except ZeroDivisionError:
@@ -1569,7 +1574,19 @@ class Interp:
         except (TypeError, ValueError, OverflowError) as e:
             raise _TargetRaise(type(e).__name__)
 
+    _FLIP = {ast.Lt: ast.Gt, ast.Gt: ast.Lt, ast.LtE: ast.GtE, ast.GtE: ast.LtE, ast.Eq: ast.Eq, ast.NotEq: ast.NotEq}
+
+    def cond(self, c):
+        """truth-value view of stub objects (0-d / boolean tensor models) wherever Python would call bool()"""
+        if hasattr(c, "e2_bool"):
+            return c.e2_bool(self)
+        return c
+
     def compare(self, op, l, r):
+        if hasattr(l, "e2_compare") and op in self._FLIP:
+            return l.e2_compare(self, op, r)
+        if hasattr(r, "e2_compare") and op in self._FLIP:
+            return r.e2_compare(self, self._FLIP[op], l)
         if (isinstance(l, Rec) or isinstance(r, Rec) or ((type(l) in self.classes or type(r) in self.classes) and (sym_deep(l) or sym_deep(r)))) \
                 and op in (ast.Eq, ast.NotEq):
             res = NotImplemented
@@ -1611,6 +1628,7 @@ class Interp:
         if isinstance(e, ast.UnaryOp):
             v = self.ev(e.operand, fr)
             if isinstance(e.op, ast.Not):
+                v = self.cond(v)
                 if is_sym(v):
                     return SB(z3.Not(self.bo(v)))
                 return False if isinstance(v, Rec) else (not v)
@@ -1621,6 +1639,8 @@ class Interp:
                     return self.mk_si(-x)
                 return -v
             if isinstance(e.op, ast.Invert):
+                if hasattr(v, "e2_invert"):
+                    return v.e2_invert(self)
                 if isinstance(v, (SI, SB)):
                     return self.mk_si(~self.bv(v))
                 return ~v
@@ -1632,7 +1652,7 @@ class Interp:
             conds = []
             try:
                 for i, x in enumerate(e.values):
-                    v = self.ev(x, fr)
+                    v = self.cond(self.ev(x, fr))
                     if not is_sym(v):
                         t = True if isinstance(v, Rec) else bool(v)
                         if (is_or and t) or (not is_or and not t):
@@ -1668,7 +1688,7 @@ class Interp:
                 l = r
             return res
         if isinstance(e, ast.IfExp):
-            c = self.ev(e.test, fr)
+            c = self.cond(self.ev(e.test, fr))
             if not is_sym(c):
                 return self.ev(e.body if (True if isinstance(c, Rec) else c) else e.orelse, fr)
             ce = self.fold(self.bo(c))
